@@ -530,3 +530,5 @@ def run(ctx, out):
     run_pairs(ctx, out)
     run_scans(ctx, out)
     run_histories(ctx, out)
+    import destmatrix
+    destmatrix.run(ctx, out, "C09", opts=["backup"], sources=["file"])
